@@ -330,6 +330,9 @@ func c10OutsOf(code string) []string {
 			out = append(out, "p2pkh-U")
 		case 'M':
 			out = append(out, "multisig-K1K2")
+		case 'P': // a script that pushes the 36-byte serialisation of the outpoint (transaction 0, output 0):
+			// it matches only once that outpoint has been inserted by an update, resolved in c10BuildTxs
+			out = append(out, "push-outpoint-0.0")
 		}
 	}
 	return out
@@ -363,6 +366,14 @@ func c10BuildTxs(descr []c10BTx) *c10Built {
 			tx.AddTxIn(wire.NewTxIn(&o, []byte{0x51}))
 		}
 		for _, k := range c10OutsOf(t.Outs) {
+			if k == "push-outpoint-0.0" {
+				sc := []byte{0x51} // in transaction 0 itself: an unrelated script
+				if i > 0 {
+					sc = append(append([]byte{36}, ref.OutPointBytes(b.ids[0], 0)...), 0x75) // <outpoint 0.0> OP_DROP
+				}
+				tx.AddTxOut(wire.NewTxOut(1000, sc, wire.TokenData{}))
+				continue
+			}
 			tx.AddTxOut(wire.NewTxOut(1000, c10OutScript(k), wire.TokenData{}))
 		}
 		txs[i] = tx
@@ -371,6 +382,29 @@ func c10BuildTxs(descr []c10BTx) *c10Built {
 	}
 	b.txs = txs
 	return b
+}
+
+// c10DirectS0: does the transaction match the initial filter contents through one of its own scripts?
+func c10DirectS0(tx *wire.MsgTx, inS0 func([]byte) bool) bool {
+	for _, o := range tx.TxOut {
+		if pushes, _, ok := ref.Pushes(o.PkScript); ok {
+			for _, d := range pushes {
+				if inS0(d) {
+					return true
+				}
+			}
+		}
+	}
+	for _, in := range tx.TxIn {
+		if pushes, _, ok := ref.Pushes(in.SignatureScript); ok {
+			for _, d := range pushes {
+				if inS0(d) {
+					return true
+				}
+			}
+		}
+	}
+	return false
 }
 
 func c10EvalBlock(w *mc.W, cas c10Block) { c10EvalBlockBuilt(w, cas, c10BuildTxs(cas.Txs)) }
@@ -400,22 +434,54 @@ func c10EvalBlockBuilt(w *mc.W, cas c10Block, built *c10Built) {
 	}
 	A := map[op]bool{{e1.Hash, e1.Index}: true}
 	direct := make([]bool, len(txs))
-	for ti, tx := range txs {
-		for oi, o := range tx.TxOut {
-			pushes, _, ok := ref.Pushes(o.PkScript)
-			if !ok {
-				continue
-			}
-			hit := false
-			for _, d := range pushes {
-				if inS0(d) {
-					hit = true
+	// least fixed point: an output matches if one of its pushes is in S0 or is the serialisation of an
+	// outpoint in A that the same transaction spends; a matching output's outpoint joins A as the flag
+	// admits.  Whatever the block order, the scan with re-checks must reach this set.
+	for changed := true; changed; {
+		changed = false
+		for ti, tx := range txs {
+			for oi, o := range tx.TxOut {
+				pushes, _, ok := ref.Pushes(o.PkScript)
+				if !ok {
+					continue
 				}
-			}
-			if hit {
-				direct[ti] = true
-				if cas.Flags == 1 || cas.Flags == 2 && ref.IsP2PKOrMultisig(o.PkScript) {
-					A[op{built.ids[ti], uint32(oi)}] = true
+				hit := false
+				for _, d := range pushes {
+					if inS0(d) {
+						hit = true
+					}
+					if len(d) == 36 {
+						// ... counted for the LOWER bound only when this transaction also spends that very
+						// outpoint: then it is (re-)examined at a moment at which the outpoint is in the
+						// filter, whatever the block order.  (An output that merely mentions an outpoint
+						// inserted later in the block is matched or not depending on the order; the
+						// statement promises order independence for spenders, and the upper bound below
+						// is taken from the final filter state.)  It is not counted either when the
+						// transaction matches the initial filter contents anyway: the library examines a
+						// transaction it has already reported only once, so whether such an output is
+						// seen with the outpoint in the filter depends on the order (observed on the
+						// unchanged tree, DESIGN 9.3; not claimed as a defect).
+						var h [32]byte
+						copy(h[:], d[:32])
+						a := op{h, uint32(d[32]) | uint32(d[33])<<8 | uint32(d[34])<<16 | uint32(d[35])<<24}
+						if A[a] && !c10DirectS0(tx, inS0) {
+							for _, in := range tx.TxIn {
+								if in.PreviousOutPoint.Hash == chainhash.Hash(a.h) && in.PreviousOutPoint.Index == a.i {
+									hit = true
+								}
+							}
+						}
+					}
+				}
+				if hit {
+					if !direct[ti] {
+						direct[ti], changed = true, true
+					}
+					if cas.Flags == 1 || cas.Flags == 2 && ref.IsP2PKOrMultisig(o.PkScript) {
+						if k := (op{built.ids[ti], uint32(oi)}); !A[k] {
+							A[k], changed = true, true
+						}
+					}
 				}
 			}
 		}
@@ -765,6 +831,26 @@ func runC10(c *mc.Ctx) {
 						w.State()
 						c10EvalBlockBuilt(w, c10Block{Txs: graphs[gi], Order: perm, Flags: fl, Geom: g}, built)
 					}
+				}
+			}
+		})
+	}
+	// graphs in which an OUTPUT matches because of an update: scripts pushing the serialisation of the
+	// outpoint (transaction 0, output 0).  Every graph of 3 transactions (<= 1 input each) over
+	// {W, U, P, PW, UP} in every order under every flag: a re-check must go on through transactions
+	// that became relevant only during a re-check.
+	{
+		graphs := c10Graphs(3, []string{"W", "U", "P", "PW", "UP"}, 1)
+		if c.Thorough() {
+			graphs = append(graphs, c10Graphs(4, []string{"W", "U", "P"}, 1)...)
+		}
+		c.Space("blocks: graphs of 3 (4) transactions with outputs that push the outpoint 0.0, every order x 3 flags", int64(len(graphs))*6*3)
+		c.ParFor(int64(len(graphs)), func(w *mc.W, gi int64) {
+			built := c10BuildTxs(graphs[gi])
+			for _, perm := range permutations(len(graphs[gi])) {
+				for fl := 0; fl < 3; fl++ {
+					w.State()
+					c10EvalBlockBuilt(w, c10Block{Txs: graphs[gi], Order: perm, Flags: fl, Geom: "mid"}, built)
 				}
 			}
 		})
